@@ -20,7 +20,7 @@ use crate::input::{Input, SURFACES};
 
 pub const STACK_2M: usize = 2 * 1024 * 1024;
 pub const STACK_8M: usize = 8 * 1024 * 1024;
-const STARTUP_BUDGET: Duration = Duration::from_secs(60);
+const STARTUP_BUDGET: Duration = Duration::from_secs(300);
 const RERUN_BUDGET: Duration = Duration::from_secs(120);
 
 /// Per-input budget: 10 s for inputs up to 256 KB, 10 s more per further 256 KB, at most 120 s.
@@ -213,7 +213,7 @@ fn drive(env: &Env, file: &Path, start: usize, stack: usize, budget_of: &dyn Fn(
                 let _ = child.wait();
                 break match current {
                     Some((idx, _)) => Stop::Overrun(idx),
-                    None => Stop::Harness("child produced no progress line for 60 s outside any input".into()),
+                    None => Stop::Harness("child produced no progress line for 300 s outside any input".into()),
                 };
             }
             Err(RecvTimeoutError::Disconnected) => {
